@@ -1,7 +1,7 @@
 """C01 lane: public mutation histories; every read view compared with the model after every call."""
 import hashlib
 
-from harness import histories, impl
+from harness import exhaustive, histories, impl
 from harness.core import LaneBase
 
 
@@ -14,15 +14,40 @@ class Lane(LaneBase):
             'error path: duplicate, reverse edge, self-loop, cycle-closing edge, missing node/edge, against time), '
             'caches cold or warm; after every call every read view is compared with the model. A case is '
             'non-trivial when at least 3 calls succeeded and the final graph has an edge; distinct by the hash of '
-            'its reply stream.')
+            'its reply stream. Thorough tier additionally: EVERY mixed graph over a 3-name universe (2240 plain, '
+            '668 time-series states) x every single-element operation over the universe plus one absent name '
+            '(531k state/operation pairs), all views compared after each.')
     TRUSTED = ['the two edge indexes and per-node lists of the code are modelled as views of one edge map; their '
                'agreement is measured through the readers that use each index',
                'selfDepR (successor reaches node) stands for the code worklist; equivalence proved in CG.C02']
 
+    EXHAUSTIVE = {'thorough': True}
+
     def cases(self, tier, rng):
-        yield from histories.gen_cases(tier, rng, 400, 6000)
+        yield from histories.gen_cases(tier, rng, 1500, 8000)
+        if tier == 'thorough':
+            yield from exhaustive.cases()
+
+    def run_exh(self, case):
+        oracle = []
+        tags = set()
+
+        def per_op(g, op, res):
+            if res is None:
+                return None
+            r, _ = res
+            tags.add('exh:' + op[0] + (':ok' if r == 'ok' else ':' + r[4:]))
+            if not oracle:
+                bad = impl.views_consistent(g)
+                if bad:
+                    oracle.append(f'exhaustive {case["state"]} then {op}: ' + bad[0])
+        lines, out = exhaustive.run(case, per_op)
+        return {'lines': lines, 'impl': out, 'oracle': oracle, 'nontrivial': bool(case['state']['edges']),
+                'key': repr((case['cls'], case['state'], case['ops'][0])), 'tags': sorted(tags)}
 
     def run_case(self, case):
+        if case.get('kind') == 'exh':
+            return self.run_exh(case)
         g = impl.new_graph(case['cls'], case.get('gmeta') or None)
         lines = [f"g new h {case['cls']} {impl.enc_meta(case.get('gmeta'))}"]
         out = ['ok']
@@ -55,4 +80,10 @@ class Lane(LaneBase):
         return 'C01:' + hashlib.sha1(failure.encode()).hexdigest()[:12]
 
     def shrink(self, case, still_fails):
+        if case.get('kind') == 'exh':
+            for op in case['ops']:
+                c2 = dict(case, ops=[op])
+                if still_fails(c2):
+                    return c2
+            return case
         return histories.shrink_ops(case, still_fails)
